@@ -230,11 +230,34 @@ def it_ensures(s):
     ]
 
 
+def _family_result(which):
+    """Call-site value of __iter__ / iter_val: a ghost family of ceil(n/B) batches; batch k has min(B, n-kB) entries whose VALUES
+    are left open here (which patterns they are is the business of the verified contract, the callers below only count them)."""
+    def result(ctx, s):
+        arr = s.self.fields[which]
+        n, B = lift(arr.sym_len()), lift(s.self.fields["batch_size"])
+        k = ctx.fresh("kbatch", "int")
+        ln = zmax(0, zmin(B, n - k.t * B))
+        val = ctx.fresh_arr("batch", (Sym(ln),), "int")
+        return GhostGen([("family", Sym(ceil_div(n, B)), k, val, f"{which}-batches")])
+    return result
+
+
+def _call_site(ens, keep):
+    """At call sites only the counting clauses of a verified iterator contract are assumed (the element clauses need the ghost
+    order of the verification run)."""
+    def f(s):
+        r = ens(s)
+        return [c for c in r if c[0] in keep] if s.mode == "apply" else r
+    return f
+
+
 C_ITER = Contract(
     f"{PU}:SimpleBatcher.__iter__", setup=it_setup,
     requires=lambda s: [("batch_size>=1", s.self.fields["batch_size"] >= 1)],
-    ensures=it_ensures,
+    ensures=_call_site(it_ensures, ("number-of-batches=ceil(n/B)", "batch-k-length=min(B,n-kB)", "batches-non-empty-and-at-most-B")),
     loops={0: LoopSpec(yields=it_loop_yields)},
+    result=_family_result("train_indices"),
 )
 
 
@@ -247,6 +270,7 @@ C_LEN = Contract(
     f"{PU}:SimpleBatcher.__len__", setup=it_setup,
     requires=lambda s: [("batch_size>=1", s.self.fields["batch_size"] >= 1)],
     ensures=len_ensures,
+    result=lambda ctx, s: ctx.fresh("len_batcher", "int"),
 )
 
 
@@ -278,9 +302,10 @@ def itv_ensures(s):
 C_ITERVAL = Contract(
     f"{PU}:SimpleBatcher.iter_val", setup=it_setup,
     requires=lambda s: [("batch_size>=1", s.self.fields["batch_size"] >= 1)],
-    ensures=itv_ensures,
+    ensures=_call_site(itv_ensures, ("number-of-batches=ceil(n/B)", "batch-k-length=min(B,n-kB)")),
     loops={0: LoopSpec(yields=itv_loop_yields)},
     inline=[f"{PU}:SimpleBatcher.has_validation"],
+    result=_family_result("val_indices"),
 )
 
 
@@ -364,6 +389,7 @@ def init_modifies(ctx, s):
     o.fields["shuffle"] = s.shuffle
     o.fields["_rng"] = s.rng
     ctx.ghost.setdefault("batcher_rngs", []).append(s.rng)
+    ctx.ghost["recon_batcher"] = o
 
 
 C_INIT = Contract(
@@ -666,6 +692,11 @@ RECON_OPAQUE_ALL = [f"{PB}:PtychographyBase._check_preprocessed", f"{PB}:Ptychog
                     f"{PB}:PtychographyBase.store_snapshot_every",
                     f"{PTO}:PtychographyOpt.optimizer_params", f"{PTO}:PtychographyOpt.scheduler_params",
                     f"{PTO}:PtychographyOpt.set_optimizers", f"{PTO}:PtychographyOpt.set_schedulers",
+                    f"{PB}:PtychographyBase._reset_iter_constraints", f"{PB}:PtychographyBase.obj_padding_px",
+                    f"{PB}:PtychographyBase.logger",
+                    f"{PTO}:PtychographyOpt.zero_grad_all", f"{PTO}:PtychographyOpt.step_optimizers",
+                    f"{PTO}:PtychographyOpt.step_schedulers", f"{PTY}:Ptychography.backward",
+                    f"{PB}:PtychographyBase._store_current_iter_snapshot", f"{PTY}:Ptychography._get_current_lrs",
                     "quantem.core.utils.validators:validate_tensor", "quantem.core.utils.utils:to_numpy",
                     f"{PB}:PtychographyBase._to_torch"]
 
@@ -693,20 +724,74 @@ class OpaqueWith(Opaque):
         self.__dict__.update(attrs)
 
 
+# ghost: per-batch losses as functions of the batch ordinal, and their running sums (definitional axioms, assumed in the setup)
+LC, LS, LV = z3.Function("loss_consistency", z3.IntSort(), z3.RealSort()), z3.Function("loss_soft", z3.IntSort(), z3.RealSort()), \
+    z3.Function("loss_validation", z3.IntSort(), z3.RealSort())
+PSC, PST, PSV = z3.Function("sum_consistency", z3.IntSort(), z3.RealSort()), z3.Function("sum_total", z3.IntSort(), z3.RealSort()), \
+    z3.Function("sum_validation", z3.IntSort(), z3.RealSort())
+
+
+def _sum_axioms(ctx):
+    j = I("j!s")
+    for PS, term, pat in ((PSC, LC(j), LC(j)), (PST, LC(j) + LS(j), LS(j)), (PSV, LV(j), LV(j))):
+        ctx.assume(PS(0) == 0)
+        ctx.assume(forall(j, implies(j >= 0, PS(j + 1) == PS(j) + term), patterns=[pat]))
+        ctx.assume(forall(j, implies(j >= 0, PS(j + 1) == PS(j) + term), patterns=[PS(j + 1)]))
+
+
+def _opaque_tuple(name, n):
+    def f(*a, **k):
+        return tuple(Opaque(f"{name}[{i}]") for i in range(n))
+    f._sym_ok = True
+    return f
+
+
 def recon_setup(ctx):
     s = reset_setup(ctx)                       # seeded or unseeded reconstruction object with an already USED generator
     N = ctx.fresh("num_gpts", "int")
     ctx.assume(N.t >= 1)
     o = Obj(PTC, dict(s.self.fields))
+    vr = ctx.fresh("val_ratio", "real")          # any validation ratio in [0, 1): the epoch has a validation pass iff the split has one
+    ctx.assume(AND(vr.t >= 0, vr.t < 1))
     o.fields.update(_obj_model=Opaque("obj_model"), _probe_model=Opaque("probe_model"),
-                    _dset=OpaqueWith("dset", num_gpts=N), _val_ratio=0.0, _val_mode="grid", _batch_size=N,
-                    _verbose=0, verbose=0)
+                    _dset=OpaqueWith("dset", num_gpts=N, forward=_opaque_tuple("dset.forward", 4)), _val_ratio=vr, _val_mode="grid", _batch_size=N,
+                    _verbose=0, verbose=0, _iter_losses=[], _iter_val_losses=[], _detector_model=Opaque("detector_model"))
     s.self = o
     s.reset = ctx.fresh("reset", "bool")
     s.batch_size = opt_int(ctx, "batch_size", lo=1)
-    s.num_iters = 0                             # the prologue is what is under contract; epochs are covered by __iter__'s contract
+    # two cases: the prologue alone (no epoch) and ONE epoch (the loss bookkeeping of an epoch; which patterns the batches hold
+    # is the business of SimpleBatcher's contracts)
+    one_epoch = ctx.branch(ctx.fresh("one_epoch", "bool").t)
+    s.num_iters = 1 if one_epoch else 0
+    s.case = "one-epoch" if one_epoch else "prologue"
+    s.autograd = True
+    s.loss_type = "l2_amplitude"
     s.N = N
+    _sum_axioms(ctx)
     return s
+
+
+def _epoch_clauses(s):
+    """One epoch: the recorded epoch loss is the MEAN, over the batches the batcher yielded, of the per-batch total losses, and
+    the recorded validation loss is the mean of the per-batch validation losses (statement: 'the mean of the per-batch losses')."""
+    o = s.self
+    b = s.ctx.ghost.get("recon_batcher")
+    if b is None:
+        return [("an-epoch-batcher-exists", False)]
+    Bz = lift(b.fields["batch_size"])
+    nb = ceil_div(lift(b.fields["train_indices"].sym_len()), Bz)
+    nv_len = lift(b.fields["val_indices"].sym_len())
+    nv = ceil_div(nv_len, Bz)
+    hist, vhist = o.fields.get("_iter_losses"), o.fields.get("_iter_val_losses")
+    out = [("one-epoch-loss-is-recorded", isinstance(hist, list) and len(hist) == 1)]
+    if isinstance(hist, list) and len(hist) == 1:
+        out.append(("recorded-epoch-loss=mean-of-the-per-batch-losses-over-the-yielded-batches",
+                    implies(nb >= 1, lift(hist[0]) * z3.ToReal(nb) == PST(nb))))
+    if isinstance(vhist, list):
+        out.append(("validation-loss-recorded-iff-there-is-a-validation-set", z3.BoolVal(len(vhist) == 1) == (nv_len > 0) if len(vhist) <= 1 else False))
+        if len(vhist) == 1:
+            out.append(("recorded-validation-loss=mean-of-the-per-batch-validation-losses", lift(vhist[0]) * z3.ToReal(nv) == PSV(nv)))
+    return out
 
 
 def recon_ensures(s):
@@ -714,6 +799,8 @@ def recon_ensures(s):
     rngs = s.ctx.ghost.get("batcher_rngs", [])
     cur = o.fields["_rng"]
     out = [("exactly-one-epoch-batcher-is-built", len(rngs) == 1)]
+    if s.num_iters == 1:
+        out += _epoch_clauses(s)
     if rngs:
         g = rngs[0]
         out.append(("batcher-draws-from-the-reconstruction's-CURRENT-generator", g is cur))
@@ -729,11 +816,90 @@ def _install_recon_models(reg):
     _super.install(reg)
 
     reg.noop_calls = set(reg.noop_calls) - {"tqdm"}
-    reg.models[ptymod.tqdm] = lambda interp, it=None, *a, **k: it   # progress bar = its iterable
+    reg.models[ptymod.tqdm] = lambda interp, it=None, *a, **k: _PBar(it)   # progress bar = its iterable (+ set_description)
     reg.opaque_calls = set(getattr(reg, "opaque_calls", ())) | set(RECON_OPAQUE_ALL)
 
 
+class _PBar:
+    """tqdm(iterable): iterating it iterates the iterable; set_description only prints."""
+
+    _pyvc_value = True
+
+    def __init__(self, it):
+        self._it = it
+
+    def __iter__(self):
+        return iter(self._it)
+
+    def set_description(self, *a, **k):
+        return None
+
+
+def _cur_loop(interp):
+    if not interp.loop_k:
+        raise V.OutOfSubset("per-batch loss requested outside the epoch's batch loops")
+    lid, k = interp.loop_k[-1][0], interp.loop_k[-1][1]
+    return lid, lift(k)
+
+
+def _ee_stub_result(ctx, s):
+    """error_estimate at its call sites inside an epoch: the loss of batch k of the current loop (training loop -> LC, validation
+    loop -> LV) and opaque targets.  What that loss IS is error_estimate's own contract (C_ERR)."""
+    lid, k = _cur_loop(s.interp)
+    f = LV if lid.endswith("loop2") else LC
+    return (Sym(f(k)), Opaque("targets"))
+
+
+C_ERR_STUB = Contract(f"{PB}:PtychographyBase.error_estimate", setup=None, result=_ee_stub_result,
+                      note="call-site view inside reconstruct's epoch: names the loss of batch k")
+C_SOFT_STUB = Contract(f"{PTY}:Ptychography._soft_constraints", setup=None, result=lambda ctx, s: Sym(LS(_cur_loop(s.interp)[1])),
+                       note="call-site view: the soft-constraint loss of batch k (any real)")
+C_FWD_STUB = Contract(f"{PB}:PtychographyBase.forward_operator", setup=None, result=lambda ctx, s: (Opaque("propagated_probes"), Opaque("overlap")),
+                      note="call-site view: forward model, outside this contract")
+
+
+def _record_setup(ctx):
+    a, b, x = ctx.fresh("old_loss_0", "real"), ctx.fresh("old_loss_1", "real"), ctx.fresh("iter_loss", "real")
+    o = Obj(PTC, {"_iter_losses": [a, b], "_iter_lrs": {}, "_obj_model": OpaqueWith("obj_model", has_optimizer=_false),
+                  "_probe_model": OpaqueWith("probe_model", has_optimizer=_false), "_dset": OpaqueWith("dset", has_optimizer=_false)})
+    return NS(self=o, iter_loss=x, prev=[a, b])
+
+
+def _false(*a, **k):
+    return False
+
+
+_false._sym_ok = True
+
+
+def _record_ensures(s):
+    if s.mode == "apply":
+        return []  # the call-site effect is `modifies` (append); the clause below is about the verification run's own pre-state
+    h = s.self.fields["_iter_losses"]
+    return [("the-loss-is-appended-to-the-history(nothing-else-changes-in-it)",
+             isinstance(h, list) and len(h) == 3 and h[0] is s.prev[0] and h[1] is s.prev[1] and h[2] is s.iter_loss)]
+
+
+C_RECORD = Contract(f"{PTY}:Ptychography._record_iter", setup=_record_setup, ensures=_record_ensures,
+                    modifies=lambda ctx, s: s.self.fields["_iter_losses"].append(s.iter_loss),
+                    inline=[f"{PB}:PtychographyBase.obj_model", f"{PB}:PtychographyBase.probe_model", f"{PB}:PtychographyBase.dset",
+                            f"{PTO}:PtychographyOpt.optimizers"])
+
+
+def _train_inv(s):
+    return [("consistency_loss-is-the-sum-of-the-batch-losses-so-far", lift(s.consistency_loss) == PSC(lift(s.k))),
+            ("total_loss-is-the-sum-of-the-batch-total-losses-so-far", lift(s.total_loss) == PST(lift(s.k)))]
+
+
+def _val_inv(s):
+    return [("val_consistency_loss-is-the-sum-of-the-validation-batch-losses-so-far", lift(s.val_consistency_loss) == PSV(lift(s.k))),
+            ("val_batches-counts-the-validation-batches-so-far", lift(s.val_batches) == lift(s.k))]
+
+
 C_RECON = Contract(f"{PTY}:Ptychography.reconstruct", setup=recon_setup, ensures=recon_ensures, snapshot=reset_snapshot,
+                   loops={1: LoopSpec(inv=_train_inv), 2: LoopSpec(inv=_val_inv)},
+                   overrides={f"{PB}:PtychographyBase.error_estimate": C_ERR_STUB, f"{PTY}:Ptychography._soft_constraints": C_SOFT_STUB,
+                              f"{PB}:PtychographyBase.forward_operator": C_FWD_STUB},
                    inline=[f"{PB}:PtychographyBase.obj_model", f"{PB}:PtychographyBase.probe_model", f"{PB}:PtychographyBase.dset",
                            f"{PB}:PtychographyBase.batch_size", f"{PB}:PtychographyBase.val_ratio", f"{PB}:PtychographyBase.val_mode",
                            f"{PB}:PtychographyBase.verbose", f"{RNGM}:RNGMixin.rng",
@@ -1141,7 +1307,7 @@ def rt_reset_recon(inp):
 for _c in (C_RESETRECON, C_RESETRECON2):
     _c.rt, _c.rt_family = rt_reset_recon, (lambda: iter([dict(seed=0), dict(seed=7)]))
 
-CONTRACTS = [C_SUBDIVIDE, C_GENERATE, C_ITER, C_LEN, C_ITERVAL, C_VALLEN, C_INIT, C_RNGSET, C_MSET, C_RESET, C_RESETRECON, C_RESETRECON2, C_CPA, C_ERR, C_RECON]
+CONTRACTS = [C_SUBDIVIDE, C_GENERATE, C_ITER, C_LEN, C_ITERVAL, C_VALLEN, C_INIT, C_RNGSET, C_MSET, C_RESET, C_RESETRECON, C_RESETRECON2, C_CPA, C_ERR, C_RECORD, C_RECON]
 
 # --------------------------------------------------------------------------------------------
 # property-level lemmas
